@@ -162,9 +162,12 @@ fn parse_increment_command(command: &mut std::str::SplitN<&str>) -> Result<Reque
         }
     };
     let inc = match command.next() {
+        // Without an amount the key is incremented by 1, an amount that is given has to be one:
+        // 'increment n 2147483648' (or 'abc') was answered ok and added 1
         Some(value) => match i32::from_str_radix(&value.replace("\n", ""), 10) {
             Ok(n) => n,
-            _ => 1,
+            _ if value.trim().is_empty() => 1,
+            _ => return Err(String::from("Invalid increment amount")),
         },
         None => 1,
     };
